@@ -15,6 +15,7 @@ import CookModel.Driver.Report
 import CookModel.Driver.ScaleM
 import CookModel.Driver.SerdeEq
 import CookModel.Driver.GroupMore
+import CookModel.Driver.FrontMatter
 /- Registry of line-protocol handlers. One line per area. -/
 namespace Cook.Driver
 def handlers : List (List String → Option String) := [
@@ -34,6 +35,7 @@ def handlers : List (List String → Option String) := [
   handleReport,
   handleScaleM,
   handleSerdeEq,
-  handleGroupMore
+  handleGroupMore,
+  handleFrontMatter
 ]
 end Cook.Driver
